@@ -22,7 +22,7 @@ comprehensions of those) - never transformed or permuted; (R4) out= targets are 
 and the result is built from what NumPy returned; (R5) argsort/take/dot/__getitem__ forward their arguments in order;
 (R6) __array_function__ forwards untouched arguments to the handler or to NumPy's own implementation. These are the
 necessary structural conditions for 'attaching units never changes which computation is carried out'.
-(R3, extended) _array_comp_helper returns (a's data, b's data) on every path; (R7) array_equal / array_equiv answer without NumPy only when two unit-carrying operands differ, a bare operand counting as the null unit; (R8) literal defaults of handlers and ndarray-method overrides equal NumPy's own defaults (spec/numpy_defaults.json, table of documented method signatures)."""
+(R3, extended) _array_comp_helper returns (a's data, b's data) on every path; (R7) array_equal / array_equiv answer without NumPy only when two unit-carrying operands differ, a bare operand counting as the null unit; (R8) literal defaults of handlers and ndarray-method overrides equal NumPy's own defaults (spec/numpy_defaults.json, table of documented method signatures); (R9) path-sensitive form of R2: on every path that runs a NumPy implementation (version arms that cannot be taken with the NumPy the signatures were read from are skipped) each named parameter NumPy's function also takes flows into that call or decides a branch before it."""
 LEVEL_NOTE = """Undecided: the numbers themselves and every NumPy function unyt leaves to NumPy's default implementation.
 Trusted: handler parameter order mirrors NumPy's (the repository's signature-compatibility tests check names and kinds).
 Named exceptions (each with a reason in rules/c06.py): in1d->isin, interp (public np.interp on stripped data),
@@ -64,6 +64,7 @@ def check(repo: Repo) -> Result:
     inv = inventory(repo)
     forward_rule(repo, res, inv)
     dropped_rule(repo, res, inv)
+    named_param_rule(repo, res, inv)
     slot_rule(repo, res, inv)
     out_rule(repo, res, inv)
     methods_rule(repo, res)
@@ -280,6 +281,200 @@ def _unpacked_and_forwarded(fn, pname, call):
             return set(names) <= used
     return False
 
+
+
+# ---------------------------------------------------------------------------
+# C06-R9: path-sensitive forwarding of named parameters
+
+
+def _version_key(text):
+    parts = re.findall(r"\d+|dev|rc|a|b", text)
+    nums = [int(x) for x in parts if x.isdigit()][:3]
+    while len(nums) < 3:
+        nums.append(0)
+    pre = 0 if any(x in ("dev", "rc", "a", "b") for x in parts) else 1
+    return tuple(nums) + (pre,)
+
+
+def _gate_truth(test, numpy_version):
+    """truth of `NUMPY_VERSION <op> Version("x.y")` for the NumPy the signatures in spec/ were read from; None if the
+    test is something else"""
+    if not (isinstance(test, ast.Compare) and len(test.ops) == 1 and norm(test.left) == "NUMPY_VERSION"):
+        return None
+    c = test.comparators[0]
+    if not (isinstance(c, ast.Call) and norm(c.func) == "Version" and c.args and isinstance(c.args[0], ast.Constant)):
+        return None
+    a, b = _version_key(numpy_version), _version_key(str(c.args[0].value))
+    op = type(test.ops[0])
+    table = {ast.GtE: a >= b, ast.Gt: a > b, ast.LtE: a <= b, ast.Lt: a < b, ast.Eq: a == b, ast.NotEq: a != b}
+    return table.get(op)
+
+
+def _path_influence(path, params, stop_at=()):
+    """for every parameter: does its value, on this path, flow into (a) an argument of a call, (b) a branch test,
+    (c) the returned expression?  Flow is followed through local assignments in path order (a re-bound name stops
+    carrying the parameter unless the new value was computed from it)."""
+    carriers = {p: {p} for p in params}
+    into_calls = {p: [] for p in params}  # call nodes whose arguments load a carrier of p
+    decides = set()
+    returned = set()
+
+    def loads(node):
+        return {n.id for n in ast.walk(node) if isinstance(n, ast.Name) and isinstance(n.ctx, ast.Load)}
+
+    def note_calls(node):
+        for c in ast.walk(node):
+            if isinstance(c, ast.Call):
+                used = set()
+                for a in list(c.args) + [k.value for k in c.keywords]:
+                    used |= loads(a)
+                for p in params:
+                    if used & carriers[p]:
+                        into_calls[p].append(c)
+
+    def assign(targets, value_loads):
+        names, updated = set(), set()
+        for t in targets:
+            for n in ast.walk(t):
+                if isinstance(n, ast.Name) and isinstance(n.ctx, ast.Store):
+                    names.add(n.id)
+            for el in (t.elts if isinstance(t, (ast.Tuple, ast.List)) else [t]):
+                # kwargs["device"] = device / obj.attr = value: the container now carries the value as well
+                base = el
+                while isinstance(base, (ast.Subscript, ast.Attribute, ast.Starred)):
+                    base = base.value
+                if base is not el and isinstance(base, ast.Name):
+                    updated.add(base.id)
+        for p in params:
+            if value_loads & carriers[p]:
+                carriers[p] |= names | updated
+            else:
+                carriers[p] -= names
+
+    computed = False  # a computing call has been passed: later tests only post-process its result
+    for ev in path:
+        kind = ev[0]
+        if kind == "cond":
+            ld = loads(ev[1])
+            note_calls(ev[1])
+            for p in params:
+                if ld & carriers[p] and not computed:
+                    decides.add(p)
+        elif kind == "loop":
+            node = ev[1]
+            if isinstance(node, ast.For):
+                note_calls(node.iter)
+                assign([node.target], loads(node.iter))
+            else:
+                ld = loads(node.test)
+                for p in params:
+                    if ld & carriers[p]:
+                        decides.add(p)
+        elif kind in ("stmt", "partial", "return", "raise") and ev[1] is not None:
+            st = ev[1]
+            note_calls(st)
+            if stop_at and any(id(c) in stop_at for c in ast.walk(st) if isinstance(c, ast.Call)):
+                computed = True
+            if isinstance(st, ast.Assign):
+                assign(st.targets, loads(st.value))
+            elif isinstance(st, ast.AugAssign):
+                ld = loads(st.value) | loads(st.target)
+                for p in params:
+                    if ld & carriers[p]:
+                        carriers[p] |= {n.id for n in ast.walk(st.target) if isinstance(n, ast.Name)}
+            elif isinstance(st, ast.AnnAssign) and st.value is not None:
+                assign([st.target], loads(st.value))
+            elif isinstance(st, ast.With):
+                for it in st.items:
+                    if it.optional_vars is not None:
+                        assign([it.optional_vars], loads(it.context_expr))
+            elif isinstance(st, ast.Return) and st.value is not None:
+                ld = loads(st.value)
+                for p in params:
+                    if ld & carriers[p]:
+                        returned.add(p)
+            # walrus targets
+            for n in ast.walk(st):
+                if isinstance(n, ast.NamedExpr):
+                    assign([ast.Name(id=n.target.id, ctx=ast.Store())], loads(n.value))
+    return into_calls, decides, returned
+
+
+def named_param_rule(repo, res, inv):
+    """C06-R9: on every path of a handler (or of a helper it forwards to) that runs a NumPy implementation, every
+    parameter that NumPy's own function also takes has an effect on the computation: it flows into that implementation
+    call (through local re-bindings and containers such as a kwargs dict), or it decides a branch taken before the call.  A named parameter that is accepted but, on some path, never looked at
+    makes the call compute NumPy's default instead of what the caller asked for (C06-R2 only sees a parameter that is
+    unused on *all* paths)."""
+    import json
+    import os
+
+    r9 = res.rule("C06-R9", "on every computing path each parameter NumPy's function also takes reaches the implementation call or decides a branch before it", floor=230)
+    with open(os.path.join(os.path.dirname(os.path.dirname(os.path.abspath(__file__))), "spec", "numpy_defaults.json"), encoding="utf-8") as f:
+        table = json.load(f)
+    np_params, np_version = table["params"], table["numpy_version"]
+    helpers = module_helpers(repo)
+    mod = repo.mod(AF)
+    todo = [(h.fn, h.targets) for h in inv]
+    done = set()
+    # helpers that receive forwarded arguments: their own parameters are judged against the NumPy function(s) they run
+    for fn0, _t in list(todo):
+        for c in walk_no_nested(fn0.node):
+            if isinstance(c, ast.Call) and isinstance(c.func, ast.Name) and c.func.id in helpers and c.func.id not in fn0.params and _is_compute_call(c, fn0, helpers):
+                for h in helpers[c.func.id]:
+                    todo.append((h, None))
+    for fn, targets in todo:
+        ident = (fn.qualname, fn.gate)
+        if ident in done:
+            continue
+        done.add(ident)
+        g = f"@{_g(fn.gate)}" if fn.gate else ""
+        paths = enum_paths(fn.body)
+        verdict = {}
+        for path in paths:
+            if path[-1][0] == "raise":
+                continue
+            live = True
+            for ev in path:
+                if ev[0] == "cond":
+                    t = _gate_truth(ev[1], np_version)
+                    if t is not None and t != ev[2]:
+                        live = False
+            if not live:
+                continue
+            sites = [c for c in path_calls(path) if _is_compute_call(c, fn, helpers)]
+            if not sites:
+                continue
+            want = set()
+            for c in sites:
+                f = c.func
+                if isinstance(f, ast.Attribute) and f.attr == "_implementation":
+                    for t in mod.qual_all(f.value) or ():
+                        want |= set(np_params.get(t, ()))
+                elif isinstance(f, ast.Attribute):
+                    for t in mod.qual_all(f) or ():
+                        want |= set(np_params.get(t, ()))
+                elif isinstance(f, ast.Name) and f.id in helpers:
+                    for h in helpers[f.id]:
+                        want |= set(h.params)
+            if targets:
+                tw = set()
+                for t in targets:
+                    tw |= set(np_params.get(t, ()))
+                want &= tw or want
+            mine = [p for p in fn.params if p in want]
+            if not mine:
+                continue
+            site_ids = {id(c) for c in sites}
+            into_calls, decides, returned = _path_influence(path, mine, site_ids)
+            for p in mine:
+                ok = p in decides or any(id(c) in site_ids for c in into_calls[p])
+                if not ok:
+                    verdict[p] = (False, sites[0])
+                else:
+                    verdict.setdefault(p, (True, None))
+        for p, (ok, site) in sorted(verdict.items()):
+            res.check(ok, f"{fn.name}{g}:{p}", fn.where(site) if site is not None else fn.where(), f"{fn.name}: on a path that runs {norm(site.func) if site is not None else 'NumPy'} the parameter {p!r} has no effect on the computation (it neither reaches the call nor decides a branch before it): NumPy computes with its own default instead of the caller's value", f"{p} reaches the computation on every path", "unused on one computing path", rid=r9)
 
 # ---------------------------------------------------------------------------
 
@@ -726,5 +921,9 @@ MUTANTS = [
     Mutant("handler-default-differs", AF, "around", "decimals=0", "decimals=1", ("C06-R8",)),
     Mutant("array-equal-none-sentinel", AF, "array_equal", 'getattr(a1, "units", NULL_UNIT)', 'getattr(a1, "units", None)', ("C06-R7",)),
     Mutant("histogram2d-range-units-of-x-twice", AF, "_histogram2d", 'units=[getattr(x, "units", None), getattr(y, "units", None)]', 'units=[getattr(x, "units", None), getattr(x, "units", None)]', ("C06-R3",)),
+    Mutant("around-out-arm-drops-decimals", AF, "around", "np.asarray(a), decimals=decimals, out=np.asarray(out)", "np.asarray(a), out=np.asarray(out)", ("C06-R9",)),
+    Mutant("histogram-live-arm-drops-bins", AF, "_histogram", "            bins=bins,\n            range=range,\n            density=density,\n            weights=np.asarray(weights) if weights is not None else None,\n        )", "            range=range,\n            density=density,\n            weights=np.asarray(weights) if weights is not None else None,\n        )", ("C06-R9",)),
+    Mutant("histogram2d-live-arm-drops-weights", AF, "_histogram2d", "            density=density,\n            weights=np.asarray(weights) if weights is not None else None,\n        )", "            density=density,\n        )", ("C06-R9",)),
+    Mutant("twin-linspace-kwargs-literal", AF, "_linspace", '        "axis": axis,\n    }', '        "axis": axis,\n    }\n    kwargs = dict(kwargs)', (), benign=True),
     Mutant("histogramdd-rows-as-coordinates", AF, "_histogramdd", "    if isinstance(sample, np.ndarray):\n        # an (N, D) array holds one point per row, whereas NumPy reads a\n        # sequence as D coordinate arrays: split the array into its columns\n        sample = [sample] if sample.ndim == 1 else list(sample.T)\n", "", ("C06-R3",)),
 ]
